@@ -82,8 +82,8 @@ func (e *Engine) runPath(st *State) {
 	for {
 		if st.NeedSched {
 			st.decided = st.decided[:0]
-			st.NeedSched = false
 			e.reschedule(st, "")
+			st.NeedSched = false
 		}
 		e.step(st)
 		if st.Steps > e.Opt.MaxSteps {
